@@ -403,8 +403,8 @@ func taMutate(r *rng, text string, s *sink) string {
 			k := r.intn(len(l) + 1)
 			lines[li] = l[:k] + string(bs) + l[k:]
 		case 10: // overlong line (bufio.Scanner limit)
-			if r.chance(1, 6) {
-				lines[li] = l + strings.Repeat("9", 65536-len(l)+r.rangeInt(-2, 2))
+			if n := 65536 - len(l) + r.rangeInt(-2, 2); n > 0 && r.chance(1, 6) {
+				lines[li] = l + strings.Repeat("9", n)
 			}
 		case 11: // duplicate the line
 			lines = append(lines[:li+1], lines[li:]...)
